@@ -1,8 +1,17 @@
 //! Random package names, package paths and dependency strings.
 use super::{patterns, versions};
-use crate::util::Rng;
+use crate::util::{alias_of, sprinkle, threshold, Rng};
 
 pub fn pkgname(rng: &mut Rng) -> String {
+    // scale: the last '-' beyond what a 16-bit offset holds, or a very long version
+    if rng.chance(1, 300) {
+        let n = threshold(rng, 70000);
+        return match rng.below(3) {
+            0 => format!("{}-1.0nb3", "b".repeat(n)),
+            1 => format!("a-b-{}-2{}nb7", "c".repeat(n), ".0".repeat(rng.below(40))),
+            _ => format!("pkg-1{}nb5", ".0".repeat(n.min(4300))),
+        };
+    }
     let n = rng.range(0, 7);
     let mut s = String::new();
     for _ in 0..n {
@@ -16,6 +25,8 @@ pub fn pkgname(rng: &mut Rng) -> String {
             _ => s.push_str(&versions::token(rng, false)),
         }
     }
+    let s = sprinkle(rng, &s, 15);
+    let mut s = s;
     if versions::max_digit_run(&s) > 18 { return pkgname(rng); }
     // make "ends in nb<digits>" frequent
     if rng.chance(1, 3) {
@@ -45,7 +56,16 @@ pub fn pkgpath(rng: &mut Rng) -> String {
     };
     for (i, g) in segs.iter().enumerate() {
         if i > 0 { s.push('/'); if rng.chance(1, 6) { s.push('/'); } if rng.chance(1, 8) { s.push_str("./"); } }
-        s.push_str(g);
+        if rng.chance(1, 150) && !g.is_empty() && *g != "." && *g != ".." {
+            // scale: a name longer than a path buffer
+            s.push_str(&"n".repeat(threshold(rng, 5000)));
+        } else if rng.chance(1, 40) {
+            // rare values: a character whose code point ends in the byte of '/', '.' or ':'
+            let m = *rng.pick(&[b'/', b'.', b':']);
+            s.push_str(&format!("{}{}", g, alias_of(rng, m)));
+        } else {
+            s.push_str(g);
+        }
     }
     if rng.chance(1, 4) { s.push('/'); }
     if rng.chance(1, 10) { s.push_str("/."); }
@@ -59,7 +79,8 @@ pub fn depend(rng: &mut Rng) -> String {
         let part = if i == 0 {
             if rng.chance(4, 5) { patterns::any(rng).0 } else { "{a".to_string() }
         } else if rng.chance(3, 4) { pkgpath(rng) } else { patterns::any(rng).0 };
-        parts.push(part.replace(':', ""));
+        let part = part.replace(':', "");
+        parts.push(if rng.chance(1, 30) { let a = alias_of(rng, b':'); let k = part.chars().count(); let at = rng.below(k + 1); let mut q: String = part.chars().take(at).collect(); q.push(a); q.extend(part.chars().skip(at)); q } else { part });
     }
     parts.join(":")
 }
